@@ -238,7 +238,7 @@ def pretags(c):
 
 
 def body(c):
-    # the route of the real program: torch's default dtype stays float32, every Parameter is explicitly float64
+    # library use under torch's float32 default with every Parameter explicitly float64 (see tt.default_dtype)
     with tt.default_dtype(torch.float32 if c.get("f32default") else torch.float64):
         return _body(c)
 
